@@ -4,7 +4,7 @@ From Coq Require Import Sorting.Sorted Sorting.Permutation.
 From LC Require Import Lib.Bytes Lib.Lex Lib.Fields Lib.PathM Gen.Consts
   Model.MountInfo Model.FsTree Model.Kernel Model.Layers
   Proofs.MountInfoP Proofs.KernelP Proofs.MonadP Proofs.ProbeP Proofs.RunP Proofs.UmountP
-  Proofs.UmountAllP Proofs.ForestP Proofs.C03P Cases.LC Cases.C03.
+  Proofs.UmountAllP Proofs.ForestP Proofs.C03P Proofs.C04P Cases.LC Cases.C03.
 Import LC LCS.
 Open Scope N_scope.
 
@@ -303,3 +303,105 @@ Proof.
 Qed.
 
 End Heavy.
+
+(* ------------------------------------------------------------------ hypotheses (decidable) *)
+Definition no_error_layers (m : lmap) : bool := forallb (fun x => negb (l_state x =? st_error)) m.
+
+(* an overlay whose lower directory is layer x's build root and that is mounted inside some
+   layer z's build root belongs to a descendant (or x itself) *)
+Definition ovl_placed (c : cfgT) (m : lmap) (tab : list kline) : bool :=
+  forallb (fun k =>
+    negb (beq (k_fstype k) overlay) ||
+    forallb (fun x =>
+      negb (beq (lower_of k) (build_path c x)) ||
+      forallb (fun z => negb (at_or_below (build_path c z) (k_mp k))
+                        || descends (S (length m)) m (l_name x) (l_name z)) m) m) tab.
+
+Lemma ovl_placed_spec c m tab : ovl_placed c m tab = true ->
+  forall k x z, In k tab -> In x m -> In z m ->
+  beq (k_fstype k) overlay = true -> lower_of k = build_path c x ->
+  at_or_below (build_path c z) (k_mp k) = true ->
+  descends (S (length m)) m (l_name x) (l_name z) = true.
+Proof.
+  unfold ovl_placed. rewrite forallb_forall. intros H k x z Hk Hx Hz Ho Hl Hb.
+  specialize (H k Hk). rewrite Ho in H. cbn [negb orb] in H. rewrite forallb_forall in H.
+  specialize (H x Hx). rewrite Hl, beq_refl in H. cbn [negb orb] in H. rewrite forallb_forall in H.
+  specialize (H z Hz). rewrite Hb in H. exact H.
+Qed.
+
+Definition C03_all_hyp (c : cfgT) (w : wobs) : bool :=
+  let m := layers_on_disk c (wo_fs w) in
+  let tab := ks_tab (wo_ks w) in
+  wf_kernel (wo_ks w) && pwf tab
+  && wf_layers c m && roots_apart c m && no_error_layers m
+  && base_set_up c (wo_fs w) && check_inheritance m
+  && dirs_noslash c && ovl_placed c m tab.
+
+Theorem C03_all_proof : forall c w e um, plain_env e = true -> C03_all_hyp c w = true ->
+  C03.step_spec c w (view_of_model c w e (CUmount [] true) um) = true.
+Proof.
+  intros c w e um He Hh. unfold C03_all_hyp in Hh. cbv zeta in Hh.
+  apply andb_true_iff in Hh as [Hh Hovl]. apply andb_true_iff in Hh as [Hh Hdn].
+  apply andb_true_iff in Hh as [Hh Hci]. apply andb_true_iff in Hh as [Hh Hb].
+  apply andb_true_iff in Hh as [Hh Hne]. apply andb_true_iff in Hh as [Hh Hap].
+  apply andb_true_iff in Hh as [Hh Hl]. apply andb_true_iff in Hh as [Hk Hpw].
+  destruct (wf_kernel_spec _ Hk) as [Hwf NDi]. destruct (wf_layers_spec _ _ Hl) as [NDn Hgood].
+  pose proof (plain_env_plain e He) as Hp.
+  set (m := layers_on_disk c (wo_fs w)) in *. set (tab := ks_tab (wo_ks w)) in *.
+  destruct (run_go e c um (CUmount [] true) (world_of w) eq_refl Hwf Hb Hci) as (ord & Hn & R).
+  cbn [world_of w_fs w_ks cmd_body] in R, Hn.
+  change (read_layer_files c (wo_fs w)) with m in R, Hn. fold tab in R.
+  assert (Hperm : Permutation ord (map l_name m)) by (now apply normalize_perm).
+  destruct (probe_pure_inv c um (wo_fs w) tab m ord NDn (read_layer_files_fresh c (wo_fs w))) as (HF & Hord & _).
+  { intros y Hy. eapply Permutation_in; [symmetry; exact Hperm|]. now apply in_map. }
+  set (ld := probe_pure c um (wo_fs w) tab m ord) in *.
+  assert (Hnoerr : forall x, In x m -> l_state x <> st_error).
+  { intros x Hx. unfold no_error_layers in Hne. rewrite forallb_forall in Hne. specialize (Hne x Hx).
+    now apply negb_true_iff, N.eqb_neq in Hne. }
+  destruct (heavy_loop e c um m tab Hp NDn Hgood Hap (ovl_placed_spec c m tab Hovl)
+              (rev (ld_order ld)) [] ld false (s0_of (world_of w)))
+    as (b' & ld' & ks' & iss & sub & G & L & _ & D & Bl & Sl & Ha & Hbz).
+  { rewrite Hord. apply NoDup_rev. eapply Permutation_NoDup; [symmetry; exact Hperm|exact NDn]. }
+  { rewrite Hord. now apply order_descendants_first. }
+  { intros n Hn0. split; [intros []|]. rewrite Hord, <- in_rev in Hn0.
+    apply (Permutation_in _ Hperm) in Hn0. apply in_map_iff in Hn0 as (x & E & Hx). eauto. }
+  { eapply forall2_impl_in; [exact HF|]. intros x l Hx (Hs & Ho & _ & Hk0).
+    destruct (Hk0 (Hnoerr x Hx)) as (K1 & K2 & _). split; [exact Hs|]. split; [exact Ho|]. split; [exact K2|].
+    intros _. exact K1. }
+  { split; [exact Hwf|]. split; [exact NDi|]. split; [exact Hpw|]. split; auto. }
+  assert (Hin_names : forall x, In x m -> In (l_name x) (rev (ld_order ld))).
+  { intros x Hx. rewrite Hord, <- in_rev. eapply Permutation_in; [symmetry; exact Hperm|]. now apply in_map. }
+  rewrite unmount_all_eq in R. unfold bind in R. rewrite G in R. cbn [fst snd] in R.
+  assert (R' : run e c um (CUmount [] true) (world_of w)
+               = ((if b' then Fail else Ret (Some ld')), st_after e (s0_of (world_of w)) ks' iss)).
+  { rewrite R. destruct b'; reflexivity. }
+  rewrite (view_of_run _ _ _ _ _ _ _ R'). unfold C03.step_spec.
+  cbn [v_cmd v_env v_res v_log v_after v_users st_after s_log s_w w_ks w_fs s0_of wo_ks wo_fs]. rewrite He. cbn [negb].
+  rewrite app_nil_r, rev_involutive, syscalls_umlog, umount_targets_umlog. fold m. fold tab.
+  apply andb_true_iff. split; [apply andb_true_iff; split; [apply andb_true_iff; split|]|].
+  - unfold C03.calls_legal. rewrite replay_umlog. exact L.
+  - apply frame_dels. eapply dels_mono; [|exact D]. intros k Hk0. unfold P_names in Hk0.
+    apply existsb_exists in Hk0 as (y & Hy & Hyb). apply andb_true_iff in Hyb as [_ Hyb].
+    exact (in_roots_below c m Hgood y _ Hy Hyb).
+  - rewrite (dedup_blocks c m sub iss Bl).
+    + apply descendants_first_intro.
+      * eapply sublist_nodup; [exact Sl|]. rewrite Hord. apply NoDup_rev.
+        eapply Permutation_NoDup; [symmetry; exact Hperm|exact NDn].
+      * eapply sublist_sorted; [exact Sl|]. rewrite Hord. now apply order_descendants_first.
+    + eapply sublist_nodup; [exact Sl|]. rewrite Hord. apply NoDup_rev.
+      eapply Permutation_NoDup; [symmetry; exact Hperm|exact NDn].
+  - assert (Hnb : forall x, In x m -> nothing_below c (ks_tab ks') x -> any_at_or_under (ks_tab ks') (build_path c x) = false).
+    { intros x Hx Hnb. unfold any_at_or_under. apply existsb_false_forall. intros k Hk0.
+      rewrite at_or_under_below by (apply good_root_spec, Hgood, Hx). now apply Hnb. }
+    destruct b'; cbn [rclass_of].
+    + apply forallb_forall. intros x Hx. destruct (Hbz x Hx (Hin_names x Hx)) as [H1|[H1|H1]].
+      * now rewrite (Hnb x Hx H1).
+      * apply orb_true_iff. right. unfold C03.busy_for_umount. apply orb_true_iff. left.
+        apply mb0_in_mount_dirs; assumption.
+      * apply orb_true_iff. right. unfold C03.busy_for_umount. apply orb_true_iff. right.
+        rewrite <- overlain0_spec. exact H1.
+    + destruct (Ha eq_refl) as [_ Hall]. apply forallb_forall. intros x Hx.
+      destruct (Hall x Hx (Hin_names x Hx)) as [Hu Hnb0]. rewrite (Hnb x Hx Hnb0). cbn [negb]. rewrite andb_true_r.
+      apply negb_true_iff. destruct (existsb (in_mount_dirs c) (users_of um (l_name x))) eqn:Eu; [|reflexivity].
+      apply in_mount_dirs_mb0 in Eu. unfold usersb in Hu. congruence.
+Qed.
